@@ -490,6 +490,7 @@ type PureFunc struct {
 
 type GhostField struct {
 	Pkg, Type, Field, Typ string
+	ExtPkg string // last path element of the package of an external type (ghost field cache.OrderedCache.f)
 }
 
 type Contracts struct {
@@ -733,8 +734,13 @@ func (cs *Contracts) parseFile(pkgPath, fn, data string) error {
 			// ghost field T.f type   |  ghost var name type
 			fs := strings.Fields(rest)
 			if len(fs) == 3 && fs[0] == "field" {
-				tf := strings.SplitN(fs[1], ".", 2)
-				cs.Ghosts = append(cs.Ghosts, GhostField{Pkg: pkgPath, Type: tf[0], Field: tf[1], Typ: fs[2]})
+				tf := strings.Split(fs[1], ".")
+				if len(tf) == 3 {
+					// ghost field alias.Type.f : a type of another package
+					cs.Ghosts = append(cs.Ghosts, GhostField{Pkg: pkgPath, Type: tf[1], Field: tf[2], Typ: fs[2], ExtPkg: tf[0]})
+				} else {
+					cs.Ghosts = append(cs.Ghosts, GhostField{Pkg: pkgPath, Type: tf[0], Field: tf[1], Typ: fs[2]})
+				}
 			} else if len(fs) == 3 && fs[0] == "var" {
 				cs.GVars = append(cs.GVars, GhostField{Pkg: pkgPath, Field: fs[1], Typ: fs[2]})
 			} else {
